@@ -174,6 +174,22 @@ theorem ref_all_interval (recs : List Rec) (hs : SortedRecs recs) (R : Nat) (a b
     ((mvccAt recs R).range a b).map KVFull.proj = scanRecs R (recs.filter (inRange a b)) :=
   ref_all_interval' recs hs R a b (alphabet_ne_zero hb (ne_nil_of_lt hab)) hab
 
+/-- a range bound above ANY non-empty key is not etcd's "from key" marker `\0` (`[0]` is the smallest non-empty
+byte string) -/
+theorem end_ne_zero_of_lt {a b : Bytes} (hne : a ≠ []) (hab : cmp a b = .lt) : (b == [0]) = false := by
+  cases a with
+  | nil => exact absurd rfl hne
+  | cons x xs =>
+    simp only [beq_eq_false_iff_ne, ne_eq]
+    intro hb
+    subst hb
+    rw [cmp_cons_cons] at hab
+    by_cases hx : 0 < x
+    · simp [hx] at hab
+    · have : x = 0 := by omega
+      subst this
+      cases xs <;> simp at hab
+
 /-- a range bound above a non-empty key over the alphabet is not etcd's "from key" marker `\0` -/
 theorem bound_ne_zero {a b : Bytes} (ha : Alphabet a) (hne : a ≠ []) (hab : cmp a b = .lt) : (b == [0]) = false := by
   cases a with
@@ -254,19 +270,19 @@ theorem readRev_le {rev : Int} {committed : Nat} (h0 : 0 ≤ rev) (hle : rev ≤
   · simp [hz]
   · simp only [beq_iff_eq, hz, if_false]; omega
 
-/-- the range read against the reference, for bounds that are keys over the alphabet or successors `K ++ [0]`
-of such keys (continue key of a paginated list, end of a single-key range) -/
+/-- the range read against the reference, for ARBITRARY bounds (any byte strings: keys over the alphabet, continue
+keys `K ++ [0]`, bounds with any other byte at or below the split byte) -/
 theorem range_list_sound_bounds (c : Cfg) (s : BState) (recs : List Rec) (hst : StoreAbs c s recs) (r : RangeReq)
-    (hp : PlainRange r) (hco : r.countOnly = false) (hk : r.key ≠ []) (hka : RangeBound r.key)
-    (hea : RangeBound r.rangeEnd) (h0 : (r.rangeEnd == [0]) = false) (hlt : cmp r.key r.rangeEnd = .lt)
+    (hp : PlainRange r) (hco : r.countOnly = false) (hk : r.key ≠ []) (hlt : cmp r.key r.rangeEnd = .lt)
     (hr0 : 0 ≤ r.revision)
     (hrc : r.revision ≤ s.committed) (hmagic : r.revision ≠ getPartitionMagic) (hcb : s.committed < 2 ^ 64) :
     ∃ a b, shimRange c s r = .ok a ∧ refRangeH (histOf recs s.committed) r = .ok b ∧
       a.hdr = b.hdr ∧ a.kvs = b.kvs ∧ a.more = b.more ∧ a.count ≤ b.count ∧ (a.more = false → a.count = b.count) := by
   have hee := isEmpty_false_of_ne (ne_nil_of_lt hlt)
+  have h0 := end_ne_zero_of_lt hk hlt
   have hrl : r.revision < 2 ^ 64 := by omega
   obtain ⟨res, hres, hhdr, hkvs, hmore⟩ := doList_bounds_spec c hst.single s hst.store hst.keys
-    r.key r.rangeEnd hka hea hlt (toU64 r.revision) r.limit.toNat
+    r.key r.rangeEnd hlt (toU64 r.revision) r.limit.toNat
   have href := refRangeH_ok recs s.committed r hk hr0 hrc hrl
   have hRle := readRev_le (committed := s.committed) hr0 hrc hrl
   generalize C03.readRev (toU64 r.revision) s.committed = R at hkvs hmore href hRle
@@ -334,14 +350,12 @@ theorem range_list_sound (c : Cfg) (s : BState) (recs : List Rec) (hst : StoreAb
     (hrc : r.revision ≤ s.committed) (hmagic : r.revision ≠ getPartitionMagic) (hcb : s.committed < 2 ^ 64) :
     ∃ a b, shimRange c s r = .ok a ∧ refRangeH (histOf recs s.committed) r = .ok b ∧
       a.hdr = b.hdr ∧ a.kvs = b.kvs ∧ a.more = b.more ∧ a.count ≤ b.count ∧ (a.more = false → a.count = b.count) :=
-  range_list_sound_bounds c s recs hst r hp hco hk (.key hka) (.key hea)
-    (alphabet_ne_zero hea (ne_nil_of_lt hlt)) hlt hr0 hrc hmagic hcb
+  range_list_sound_bounds c s recs hst r hp hco hk hlt hr0 hrc hmagic hcb
 
 /-- `count_only` at an explicit revision (/repo 5f2847c): the size of the range read at THAT revision; the whole
 response equals etcd's -/
 theorem range_count_rev_sound (c : Cfg) (s : BState) (recs : List Rec) (hst : StoreAbs c s recs) (r : RangeReq)
-    (hp : PlainRange r) (hco : r.countOnly = true) (hk : r.key ≠ []) (hka : RangeBound r.key)
-    (hea : RangeBound r.rangeEnd) (h0 : (r.rangeEnd == [0]) = false) (hlt : cmp r.key r.rangeEnd = .lt)
+    (hp : PlainRange r) (hco : r.countOnly = true) (hk : r.key ≠ []) (hlt : cmp r.key r.rangeEnd = .lt)
     (hr0 : 0 < r.revision) (hrc : r.revision ≤ s.committed) (hmagic : r.revision ≠ getPartitionMagic)
     (hcb : s.committed < 2 ^ 64) :
     ∃ a, shimRange c s r = .ok a ∧ refRangeH (histOf recs s.committed) r = .ok a := by
@@ -349,7 +363,8 @@ theorem range_count_rev_sound (c : Cfg) (s : BState) (recs : List Rec) (hst : St
   have hee := isEmpty_false_of_ne (ne_nil_of_lt hlt)
   have hrl : r.revision < 2 ^ 64 := by omega
   have hm : (r.revision == getPartitionMagic) = false := by simpa using hmagic
-  have hlist := doList_bounds_unlimited c hst.single s hst.store hst.keys hka hea hlt (toU64 r.revision)
+  have h0 := end_ne_zero_of_lt hk hlt
+  have hlist := doList_bounds_unlimited c hst.single s hst.store hst.keys hlt (toU64 r.revision)
   have href := refRangeH_ok recs s.committed r hk (by omega) hrc hrl
   have hRle := readRev_le (committed := s.committed) (rev := r.revision) (by omega) hrc hrl
   have hRR : (if (toU64 r.revision == 0) = true then s.committed else toU64 r.revision) =
@@ -375,15 +390,16 @@ theorem range_count_rev_sound (c : Cfg) (s : BState) (recs : List Rec) (hst : St
   · rw [href]
     simp [refRangeOn, hp1, hp2, hp3, hp4, hp5, hp6, hco, inBounds, hft, hlen]
 
-theorem range_count_sound (c : Cfg) (s : BState) (recs : List Rec) (hst : StoreAbs c s recs) (r : RangeReq)
-    (hp : PlainRange r) (hco : r.countOnly = true) (hk : r.key ≠ []) (hka : Alphabet r.key)
-    (hea : Alphabet r.rangeEnd) (hlt : cmp r.key r.rangeEnd = .lt) (hr0 : r.revision = 0) :
+/-- `count_only` at the current revision, for ARBITRARY bounds -/
+theorem range_count_sound_bounds (c : Cfg) (s : BState) (recs : List Rec) (hst : StoreAbs c s recs) (r : RangeReq)
+    (hp : PlainRange r) (hco : r.countOnly = true) (hk : r.key ≠ []) (hlt : cmp r.key r.rangeEnd = .lt)
+    (hr0 : r.revision = 0) :
     ∃ a, shimRange c s r = .ok a ∧ refRangeH (histOf recs s.committed) r = .ok a := by
   obtain ⟨hp1, hp2, hp3, hp4, hp5, hp6⟩ := hp
   have hee := isEmpty_false_of_ne (ne_nil_of_lt hlt)
   have hke := isEmpty_false_of_ne hk
-  have hcnt := C03.count_spec c hst.single hst.compat s hst.store hst.sorted hst.keys r.key r.rangeEnd hka hea hlt
-  have hfull := ref_all_interval recs hst.sorted s.committed r.key r.rangeEnd hea hlt
+  have hcnt := doCount_bounds c hst.single hst.compat s hst.store hst.keys hlt
+  have hfull := ref_all_interval' recs hst.sorted s.committed r.key r.rangeEnd (end_ne_zero_of_lt hk hlt) hlt
   have hlen : ((mvccAt recs s.committed).range r.key r.rangeEnd).length =
       (scanRecs s.committed (recs.filter (inRange r.key r.rangeEnd))).length := by rw [← hfull, List.length_map]
   have hft : ∀ l : List KVFull, l.filter (fun _ => true) = l := fun l => List.filter_eq_self.mpr (by simp)
@@ -391,8 +407,13 @@ theorem range_count_sound (c : Cfg) (s : BState) (recs : List Rec) (hst : StoreA
   refine ⟨⟨s.committed, [], (scanRecs s.committed (recs.filter (inRange r.key r.rangeEnd))).length, false⟩, ?_, ?_⟩
   · have hr : ¬ r.revision > 0 := by omega
     simp only [shimRange, hee, hm, hco, hcnt, liftScan, Bool.false_eq_true, if_false, if_true, hr]
-    rfl
   · simp [refRangeH, hke, hr0, histOf, refRangeOn, hp1, hp2, hp3, hp4, hp5, hp6, hco, inBounds, hft, hlen]
+
+theorem range_count_sound (c : Cfg) (s : BState) (recs : List Rec) (hst : StoreAbs c s recs) (r : RangeReq)
+    (hp : PlainRange r) (hco : r.countOnly = true) (hk : r.key ≠ []) (_hka : Alphabet r.key)
+    (_hea : Alphabet r.rangeEnd) (hlt : cmp r.key r.rangeEnd = .lt) (hr0 : r.revision = 0) :
+    ∃ a, shimRange c s r = .ok a ∧ refRangeH (histOf recs s.committed) r = .ok a :=
+  range_count_sound_bounds c s recs hst r hp hco hk hlt hr0
 
 /-! ### point reads -/
 
